@@ -42,13 +42,8 @@ architecture arch_test_sync_flag_03 of test_sync_flag_03 is
   signal temp : boolean;
   signal temp1 : boolean;
   signal sync_flag_set_tx : std_logic := '0';
-  signal delayline : std_logic := '0';
-  signal delayline1 : std_logic := '0';
-  signal delayline2 : std_logic := '0';
-  signal sync_flag_set_rx : std_logic := '0';
   signal sync_flag_tx_indirect : std_logic;
-  signal sync_flag_rx_indirect : std_logic;
-  signal delayline_1 : std_logic := '0';
+  signal delayline : std_logic := '0';
 begin
   
   -- CONCURRENT BLOCK (buffer assignment)
@@ -80,10 +75,6 @@ begin
       if temp2 then
         sync_flag_set_tx <= '0';
         buffer_set_flag <= '0';
-        delayline <= '0';
-        delayline1 <= '0';
-        delayline2 <= '0';
-        sync_flag_rx <= '0';
       else
         buffer_set_flag <= '0';
         temp3 := start_sender = '1';
@@ -96,17 +87,12 @@ begin
         buffer_is_set_in_sender <= cohdl_bool_to_std_logic(temp5);
         temp6 := (sync_flag_set_tx = sync_flag_rx);
         buffer_is_clear_in_sender <= cohdl_bool_to_std_logic(temp6);
-        delayline <= sync_flag_set_rx;
-        delayline1 <= delayline;
-        delayline2 <= delayline1;
-        sync_flag_rx <= delayline2;
       end if;
     end if;
   end process;
   
   -- CONCURRENT BLOCK (always - clear_sync)
   sync_flag_tx_indirect <= sync_flag_tx;
-  sync_flag_rx_indirect <= sync_flag_set_rx;
   
 
   clear_sync: process(clk)
@@ -118,23 +104,23 @@ begin
     if rising_edge(clk) then
       temp2 := reset = '1';
       if temp2 then
-        sync_flag_set_rx <= '0';
+        sync_flag_rx <= '0';
         buffer_clear_flag <= '0';
-        delayline_1 <= '0';
+        delayline <= '0';
         sync_flag_tx <= '0';
       else
         buffer_clear_flag <= '0';
-        temp3 := (sync_flag_tx_indirect /= sync_flag_rx_indirect);
+        temp3 := (sync_flag_tx_indirect /= sync_flag_rx);
         if temp3 then
-          sync_flag_set_rx <= sync_flag_tx;
+          sync_flag_rx <= sync_flag_tx;
           buffer_clear_flag <= '1';
         end if;
-        temp4 := (sync_flag_tx /= sync_flag_set_rx);
+        temp4 := (sync_flag_tx /= sync_flag_rx);
         buffer_is_set_in_receiver <= cohdl_bool_to_std_logic(temp4);
-        temp5 := (sync_flag_tx = sync_flag_set_rx);
+        temp5 := (sync_flag_tx = sync_flag_rx);
         buffer_is_clear_in_receiver <= cohdl_bool_to_std_logic(temp5);
-        delayline_1 <= sync_flag_set_tx;
-        sync_flag_tx <= delayline_1;
+        delayline <= sync_flag_set_tx;
+        sync_flag_tx <= delayline;
       end if;
     end if;
   end process;
